@@ -45,11 +45,13 @@ func (a *AzimuthalEquidistant) Forward(lonLat geom.XY) geom.XY {
 	λ0r := dtor(a.centerLonLat.X)
 	φ0r := dtor(a.centerLonLat.Y)
 
-	ρ := R * acos(sin(φ0r)*sin(φr)+cos(φ0r)*cos(φr)*cos(λr-λ0r))
-	θ := atan2(
-		cos(φr)*sin(λr-λ0r),
-		cos(φ0r)*sin(φr)-sin(φ0r)*cos(φr)*cos(λr-λ0r),
-	)
+	// The angular distance from the center is computed with atan2 rather than
+	// acos, which loses all precision for points close to the center.
+	sinθ := cos(φr) * sin(λr-λ0r)
+	cosθ := cos(φ0r)*sin(φr) - sin(φ0r)*cos(φr)*cos(λr-λ0r)
+	cosc := sin(φ0r)*sin(φr) + cos(φ0r)*cos(φr)*cos(λr-λ0r)
+	ρ := R * atan2(sqrt(sinθ*sinθ+cosθ*cosθ), cosc)
+	θ := atan2(sinθ, cosθ)
 	return geom.XY{
 		X: ρ * sin(θ),
 		Y: ρ * cos(θ),
